@@ -111,7 +111,9 @@ func VerifC04_Project() {
 			verifFail("launch.after.run.returned")
 		}
 	}
-	r := vRunner(vProject(confs...), false)
+	// the shutdown a trigger starts is the default one or the ordered one (--ordered-shutdown)
+	ordered := verifChooseK("ordered.shutdown", 2) == 1
+	r := vRunner(vProject(confs...), ordered)
 	runDone := make(chan error, 1)
 	go func() { runDone <- r.Run() }()
 	// processes that run until stopped and nothing triggers: end them when nothing else can happen
